@@ -30,6 +30,7 @@ def run(ctx):
     ctx.guard(rule_b, ctx, ix, hub)
     ctx.guard(rule_c, ctx, ix, hub)
     ctx.guard(rule_d, ctx, ix, hub)
+    ctx.guard(rule_e, ctx, ix, hub)
 
 
 def _mentions_field(node, selfname, field):
@@ -386,3 +387,63 @@ def _key_is_mro_len(ix, f, key):
     a = g.params[0]
     t = unparse(rets[0].value).replace(' ', '')
     return t in ('len(getmro(%s))' % a, 'len(%s.mro())' % a, 'len(%s.__mro__)' % a, 'len(inspect.getmro(%s))' % a)
+
+
+def rule_e(ctx, ix, hub):
+    """What a subscriber asks for is what is stored: the triple (handler, filter, priority) reaches the callback container as
+    given - the priority is a number (0 is a priority), so it may only be replaced when it `is None`; and the container stores
+    every subscription, or skips one only after comparing all three parts (a new filter for the same handler is a new
+    subscription)."""
+    from .. import cond
+    from ..util import parent_map
+    R = 'C07.e'
+    ctx.describe(R, 'a subscription is stored as given: numeric priority kept (0 included), no subscription skipped on a partial comparison', floor=3)
+    f = hub.resolve_func('subscribe')
+    if f is None:
+        raise AnalysisError('Hub.subscribe vanished')
+    stores = [st for st in walk_no_nested(f.node) if isinstance(st, ast.Assign) and isinstance(st.targets[0], ast.Subscript)
+              and isinstance(st.value, ast.Tuple) and len(st.value.elts) == 3 and '_subscriptions' in unparse(st.targets[0])]
+    if len(stores) != 1:
+        raise AnalysisError('Hub.subscribe: the store of (handler, filter, priority) is no longer recognised')
+    prio = stores[0].value.elts[2]
+    flt = stores[0].value.elts[1]
+    for part, what in ((prio, 'priority'), (flt, 'filter')):
+        if not isinstance(part, ast.Name):
+            raise AnalysisError('Hub.subscribe: the %s stored is not a plain name' % what)
+    pc_store = cond.path_condition(f.node, stores[0], expand=False) or ('const', True)
+    ctx.ob(R, f.construct + ' store', 'every accepted subscription is stored', pc_store == ('const', True) or not any(
+        prio.id in a or flt.id in a for a in cond.atoms(pc_store)),
+        detail='Hub.subscribe stores the subscription only under `%s`' % (pc_store,), where=where(f, stores[0]))
+    # re-bindings of the numeric parameter
+    n = 0
+    for st in walk_no_nested(f.node):
+        if isinstance(st, ast.Assign) and any(isinstance(t, ast.Name) and t.id == prio.id for t in st.targets):
+            n += 1
+            pc = cond.path_condition(f.node, st, expand=False) or ('const', True)
+            truthy = any(a == prio.id for a in cond.atoms(pc))
+            ctx.ob(R, '%s `%s`' % (f.construct, norm(st)), 'the priority is replaced by a default only when it is None (identity), never when it is falsy', not truthy,
+                   detail='Hub.subscribe replaces the priority under `%s`, a truth-value test: priority=0 is a legitimate priority (lower than '
+                          'every positive one) and is silently turned into the default, so that handler is called before handlers of '
+                          'priority 1..9 instead of after them' % (pc,), where=where(f, st))
+    ctx.ob(R, f.construct + ' priority', 'the priority parameter reaches the container as given (%d re-bindings examined)' % n, True)
+    # the container
+    cc = ix.cls('glue.core.hub_callback_container.HubCallbackContainer')
+    g = cc.resolve_func('__setitem__')
+    if g is None:
+        raise AnalysisError('HubCallbackContainer.__setitem__ vanished')
+    sts = [st for st in walk_no_nested(g.node) if isinstance(st, ast.Assign) and isinstance(st.targets[0], ast.Subscript)
+           and unparse(st.targets[0].value) == '%s.callbacks' % g.self_name]
+    if len(sts) != 1:
+        raise AnalysisError('HubCallbackContainer.__setitem__: the store into self.callbacks is no longer recognised')
+    pc = cond.path_condition(g.node, sts[0], expand=True) or ('const', True)
+    # which local holds the filter: the second element of the unpacked value
+    fname = None
+    for st in walk_no_nested(g.node):
+        if isinstance(st, ast.Assign) and isinstance(st.targets[0], ast.Tuple) and len(st.targets[0].elts) == 3 and unparse(st.value) == g.params[2]:
+            fname = unparse(st.targets[0].elts[1])
+    ok = pc == ('const', True) or (fname is not None and any(fname in a.split('|') or ('%s' % fname) in a for a in cond.atoms(pc)
+                                                              if a.startswith(('is|', 'eq|'))))
+    ctx.ob(R, g.construct, 'the container stores every subscription, or skips one only after comparing handler, filter and priority', ok,
+           detail='HubCallbackContainer.__setitem__ keeps the stored entry under `%s` - a comparison that does not look at the filter: '
+                  'subscribing again with the same handler and another filter (a listener switching to another source) keeps the old '
+                  'filter, so messages that should now be delivered are withheld and the others still arrive' % (pc,), where=where(g, sts[0]))
